@@ -17,8 +17,10 @@ Vocabulary: see `Netpol.Properties.C06`. In addition
   generated from `peer` itself does, so that the hypothesis `hcov` of the main theorem says: *the
   representative peer of every rule peer that matches `q` is still there* — it was not removed by
   `removeRepresentativePeersMatchingLabels` (the documented omission) and was not lost to another
-  selector pair with the same key (finding: `uniqueKey` concatenates the requirement strings without
-  a separator, see the examples). -/
+  selector pair with the same key. The latter cannot happen on input with label syntax
+  (`Exposure.keyInjective_of_ok`) since `uniqueKey` joins the requirement strings with `;` and the
+  pair key joins its two parts with `|` (before that repair, `{ab: c}` and `{a exists, b: c}` had the
+  same key: see the examples). -/
 namespace Netpol.Properties.C07
 open Netpol Engine Exposure
 
@@ -179,11 +181,13 @@ theorem exposure_complete_build (objs : List Obj) (x : XEngine) (hbuild : Exposu
       · exact h1
       · exact absurd ⟨np, r, podSel, nsSel, hP, hcw, hpeer, hm, h1⟩ hex
 
-/-- the same with syntactic hypotheses on the input: the selectors have label syntax
-(`SelectorsOK`) and the map key has no collision on them (`KeyInjective`: selector pairs with the same
-key have the same requirement strings) -/
+/-- The same with a syntactic hypothesis only: the selectors of the input have label syntax.
+`SelectorsOK e` (decidable) excludes exactly: a selector key or value, or a policy namespace name,
+that holds one of the characters space `=` `!` `,` `(` `)` `;` `|`; an empty selector key; a `NotIn`
+requirement without values. On such input the map key of the representative peers is injective
+(`keyInjective_of_ok`), so that no representative peer is lost to a key collision. -/
 theorem exposure_complete_build_syntactic (objs : List Obj) (x : XEngine)
-    (hbuild : Exposure.build objs = .ok x) (hok : SelectorsOK x.eng) (hK : KeyInjective x.eng)
+    (hbuild : Exposure.build objs = .ok x) (hok : SelectorsOK x.eng)
     (hv : NpValid x.eng) (hnn : NamesNonEmpty x.eng) (n : String) (pod : Pod)
     (hpod : pod.isRepresentative = false ∧ pod.ValidPorts)
     (hname : pod.name ≠ representativePodName) (ns : NsObj) (hns : x.eng.findNs pod.ns = some ns)
@@ -198,7 +202,7 @@ theorem exposure_complete_build_syntactic (objs : List Obj) (x : XEngine)
       NPPeer.sel podSel nsSel ∈ r.peers ∧
       Spec.npPeerMatches np (.sel podSel nsSel) (.pod q nsl) = true ∧
       Omitted x objs podSel (nsSel.getD (nsNameSelector np.ns))) :=
-  exposure_complete_build objs x hbuild (keyFaithful_of_injective hok hK) hv hnn n pod hpod hname ns
+  exposure_complete_build objs x hbuild (keyFaithful_of_ok hok) hv hnn n pod hpod hname ns
     hns i hprot res h q nsl hc pr p hp hal
 
 /-! ### non-vacuity: the engine of `C06.Examples` -/
@@ -235,7 +239,7 @@ theorem cov_qClient : ∀ p r, PRule ex.eng web (dirOf true) p r → isCW r = fa
   · have : peer = .sel (some selClient) none := by simpa using hpeer
     subst this
     exact rep_covers_of_generated ex np (some selClient) none qClient nsDefault.labels cons_qClient hm
-      ("kubernetes.io/metadata.name=default/app=client", repClient) (by simp [ex]) rfl rfl
+      ("kubernetes.io/metadata.name=default|app=client", repClient) (by simp [ex]) rfl rfl
   · exact absurd hcw (by decide)
 
 /-- the theorem at work: the ingress result of `web` is `some (true, entries)` and holds an entry
@@ -250,36 +254,9 @@ example : ∃ res, xgressExposure ex wWeb true = .ok res ∧
     web (by decide) (by decide) nsDefault (by decide) true (by decide) res hres qClient nsDefault.labels
     .TCP 8080 (by decide) cov_qClient allowed_qClient⟩
 
-/-- the keys of the two selector pairs of `np` differ -/
-theorem keyFaithful_ex : KeyFaithful ex.eng := by
-  intro np1 h1 rs1 hr1 np2 h2 rs2 hr2 hkey
-  have e1 : np1 = np := by simpa [ex] using h1
-  have e2 : np2 = np := by simpa [ex] using h2
-  subst e1 e2
-  rw [allSels_np] at hr1 hr2
-  have hns : np.ns = "default" := rfl
-  rw [hns] at hkey
-  simp only [List.mem_cons, List.not_mem_nil, or_false] at hr1 hr2
-  rcases hr1 with rfl | rfl <;> rcases hr2 with rfl | rfl
-  · exact ⟨SelEquiv.refl _, SelEquiv.refl _⟩
-  · rw [key1, key2] at hkey; exact absurd hkey (by decide)
-  · rw [key1, key2] at hkey; exact absurd hkey (by decide)
-  · exact ⟨SelEquiv.refl _, SelEquiv.refl _⟩
-
-theorem keyInjective_ex : KeyInjective ex.eng := by
-  intro np1 h1 rs1 hr1 np2 h2 rs2 hr2 hkey
-  have e1 : np1 = np := by simpa [ex] using h1
-  have e2 : np2 = np := by simpa [ex] using h2
-  subst e1 e2
-  rw [allSels_np] at hr1 hr2
-  have hns : np.ns = "default" := rfl
-  rw [hns] at hkey
-  simp only [List.mem_cons, List.not_mem_nil, or_false] at hr1 hr2
-  rcases hr1 with rfl | rfl <;> rcases hr2 with rfl | rfl
-  · exact ⟨rfl, rfl⟩
-  · rw [key1, key2] at hkey; exact absurd hkey (by decide)
-  · rw [key1, key2] at hkey; exact absurd hkey (by decide)
-  · exact ⟨rfl, rfl⟩
+/-- the selectors of `np` have label syntax, hence the map key is injective and faithful on them -/
+theorem keyInjective_ex : KeyInjective ex.eng := keyInjective_of_ok (by decide)
+theorem keyFaithful_ex : KeyFaithful ex.eng := keyFaithful_of_ok (by decide)
 
 /-- the build-level theorem on the same query: the hypotheses hold; here nothing is omitted, so the
 first alternative is the case (`cov_qClient` above) -/
@@ -297,7 +274,7 @@ example : ∃ res, xgressExposure ex wWeb true = .ok res ∧
     "default/web[Pod]" web (by decide) (by decide) nsDefault (by decide) true (by decide) res hres
     qClient nsDefault.labels cons_qClient .TCP 8080 (by decide) allowed_qClient⟩
 
-/-- … and the syntactic form: label syntax and no key collision -/
+/-- … and the syntactic form: label syntax only -/
 example : ∃ res, xgressExposure ex wWeb true = .ok res ∧
     ((∃ entries, res = some (true, entries) ∧ ∃ en ∈ entries,
       (en.entireCluster = true ∨ Sat en.podSel en.nsSel qClient nsDefault.labels) ∧
@@ -308,7 +285,7 @@ example : ∃ res, xgressExposure ex wWeb true = .ok res ∧
       Omitted ex exObjs podSel (nsSel.getD (nsNameSelector p.ns)))) := by
   obtain ⟨res, hres⟩ := xgressExposure_ok ex (by decide) (by decide) (by decide) "default/web[Pod]" web
     (by decide) (by decide) nsDefault (by decide) true
-  exact ⟨res, hres, exposure_complete_build_syntactic exObjs ex build_ex (by decide) keyInjective_ex
+  exact ⟨res, hres, exposure_complete_build_syntactic exObjs ex build_ex (by decide)
     (by decide) (by decide) "default/web[Pod]" web (by decide) (by decide) nsDefault (by decide) true
     (by decide) res hres qClient nsDefault.labels cons_qClient .TCP 8080 (by decide) allowed_qClient⟩
 
@@ -318,7 +295,7 @@ example : ∃ res, xgressExposure ex wWeb true = .ok res ∧
 def client : Pod :=
   { ns := "default", name := "client", labels := [("app", "client")], ports := [] }
 def exOm : XEngine :=
-  { eng := { ex.eng with pods := [web, other, client] }, reps := [("env=prod/", repProd)] }
+  { eng := { ex.eng with pods := [web, other, client] }, reps := [("env=prod|", repProd)] }
 
 example : Spec.allowedDir exOm.eng.toView (.pod web nsDefault.labels) (.pod qClient nsDefault.labels)
     (dstEnd true web nsDefault.labels qClient nsDefault.labels) (dirOf true) .TCP 8080 = true :=
@@ -353,7 +330,7 @@ example : ∀ res, xgressExposure exOm wWeb true = .ok res →
       · revert hd; decide
       · cases hi
     · obtain ⟨krp, hk, c, _, _, rfl⟩ := hX.sound en hr
-      have : krp = ("env=prod/", repProd) := by simpa [exOm] using hk
+      have : krp = ("env=prod|", repProd) := by simpa [exOm] using hk
       subst this
       rcases hsat with h | h
       · cases h
@@ -368,37 +345,133 @@ example : Omitted exOm [.ns nsDefault, .pod web, .pod other, .pod client, .np np
   ⟨selClient, nsNameSelector "default", SelEquiv.refl _, SelEquiv.refl _, rfl, rfl, by decide, by decide,
     .pod client, by simp, client.labels, "default", nsDefault, rfl, by decide, by decide, by decide⟩
 
-/-! the finding behind the second way to lose a representative peer: `uniqueKey` concatenates the
-requirement strings without separator, so that the selectors `{ab: c}` and `{a exists, b: c}` — which
-no label set satisfies both — get the same key, and `addRepresentativePod` keeps one peer for the two -/
+/-! The repaired map key. `uniqueKey` used to concatenate the requirement strings without separator,
+so that the selectors `{ab: c}` and `{a exists, b: c}` — which no label set satisfies both — had the
+same key `ab=c` and `addRepresentativePod` kept one representative peer for the two rules (on the Go
+code the TCP 81 entry below was lost). With the separator `;` the keys differ, both representative
+peers are generated, and both entries are reported. -/
 def selAB : Selector := ⟨[("ab", "c")], []⟩
 def selA_B : Selector := ⟨[("b", "c")], [⟨"a", .Exists, []⟩]⟩
 
-example : uniqueKey (some selAB) = uniqueKey (some selA_B) := by
+example : uniqueKey (some selAB) = "ab=c" ∧ uniqueKey (some selA_B) = "a;b=c" := by
   simp [uniqueKey, selAB, selA_B, Selector.reqStrings, reqString, List.mergeSort,
-    List.MergeSort.Internal.splitInTwo, String.join]
-/-- a policy with two ingress rules: from `{ab: c}` on TCP 80, from `{a exists, b: c}` on TCP 81 -/
-def npColl : NetPol :=
-  { ns := "default", name := "coll", podSel := ⟨[("app", "web")], []⟩, types := [.ingress],
-    ingress := [⟨[.sel (some selAB) none], [⟨none, .num 80 none⟩]⟩,
-                ⟨[.sel (some selA_B) none], [⟨none, .num 81 none⟩]⟩], egress := [] }
-def engColl : Engine := { namespaces := [nsDefault], pods := [web], netpols := [npColl], exposure := true }
-
-/-- the input has label syntax, and yet the map key collides on it -/
-example : SelectorsOK engColl ∧ ¬ KeyInjective engColl := by
-  refine ⟨by decide, fun h => ?_⟩
-  have hs : allSels npColl = [⟨some selAB, none⟩, ⟨some selA_B, none⟩] := by rfl
-  have := (h npColl (by simp [engColl]) ⟨some selAB, none⟩ (by rw [hs]; simp)
-    npColl (by simp [engColl]) ⟨some selA_B, none⟩ (by rw [hs]; simp) (by
-      simp [keyOf, nsOf, uniqueKey, selAB, selA_B, Selector.reqStrings, reqString, List.mergeSort,
-        List.MergeSort.Internal.splitInTwo, String.join])).1
-  revert this
-  simp [selAB, selA_B, Selector.reqStrings, reqString, List.mergeSort,
     List.MergeSort.Internal.splitInTwo]
 
 example : selAB.matches [("ab", "c")] = true ∧ selA_B.matches [("ab", "c")] = false ∧
     selA_B.matches [("a", "x"), ("b", "c")] = true ∧ selAB.matches [("a", "x"), ("b", "c")] = false := by
   decide
+
+/-- a policy with two ingress rules: from `{ab: c}` on TCP 80, from `{a exists, b: c}` on TCP 81 -/
+def npColl : NetPol :=
+  { ns := "default", name := "coll", podSel := ⟨[("app", "web")], []⟩, types := [.ingress],
+    ingress := [⟨[.sel (some selAB) none], [⟨none, .num 80 none⟩]⟩,
+                ⟨[.sel (some selA_B) none], [⟨none, .num 81 none⟩]⟩], egress := [] }
+def collObjs : List Obj := [.ns nsDefault, .pod web, .np npColl]
+
+def repAB : Pod :=
+  { ns := "default", name := representativePodName, labels := [], ports := [], fake := true,
+    reprPodSel := some selAB, reprNsSel := some (nsNameSelector "default") }
+def repA_B : Pod :=
+  { ns := "default", name := representativePodName, labels := [], ports := [], fake := true,
+    reprPodSel := some selA_B, reprNsSel := some (nsNameSelector "default") }
+
+/-- what `Exposure.build` returns: two representative peers under two keys -/
+def xColl : XEngine :=
+  { eng := { namespaces := [nsDefault], pods := [web], netpols := [npColl], exposure := true },
+    reps := [("kubernetes.io/metadata.name=default|ab=c", repAB),
+             ("kubernetes.io/metadata.name=default|a;b=c", repA_B)] }
+
+theorem allSels_npColl : allSels npColl = [⟨some selAB, none⟩, ⟨some selA_B, none⟩] := by rfl
+
+theorem keyAB : keyOf "default" ⟨some selAB, none⟩ = "kubernetes.io/metadata.name=default|ab=c" := by
+  simp [keyOf, nsOf, uniqueKey, nsNameSelector, Selector.reqStrings, selAB, nsNameLabelKey]
+theorem keyA_B : keyOf "default" ⟨some selA_B, none⟩ =
+    "kubernetes.io/metadata.name=default|a;b=c" := by
+  simp [keyOf, nsOf, uniqueKey, nsNameSelector, Selector.reqStrings, reqString, selA_B,
+    nsNameLabelKey, List.mergeSort, List.MergeSort.Internal.splitInTwo]
+
+theorem build_coll : Exposure.build collObjs = .ok xColl := by
+  rw [build_eq]
+  have h1 : (collObjs.filter isPolNs) = [.ns nsDefault, .np npColl] := rfl
+  have h2 : (collObjs.filter (fun o => !isPolNs o)) = [.pod web] := rfl
+  rw [h1, h2]
+  have s1 : bstep x0 (.ns nsDefault) =
+      .ok ⟨{ namespaces := [nsDefault], exposure := true }, []⟩ := rfl
+  have s2 : bstep ⟨{ namespaces := [nsDefault], exposure := true }, []⟩ (.np npColl) =
+      .ok ⟨{ namespaces := [nsDefault], netpols := [npColl], exposure := true }, xColl.reps⟩ := by
+    unfold bstep
+    have hins : ({ namespaces := [nsDefault], exposure := true } : Engine).insertNetpol npColl =
+        .ok { namespaces := [nsDefault], netpols := [npColl], exposure := true } := rfl
+    simp only [hins, bind, Except.bind, pure, Except.pure]
+    have hd : npDefaulted npColl = npColl := rfl
+    rw [hd, allSels_npColl]
+    simp only [addAll, List.foldl_cons, List.foldl_nil, addRepresentative_eq]
+    have hns : npColl.ns = "default" := rfl
+    rw [hns, keyAB, keyA_B]
+    simp [newRep, nsOf, xColl, repAB, repA_B, Engine.findNs, nsDefault]
+  have s3 : bstep ⟨{ namespaces := [nsDefault], netpols := [npColl], exposure := true }, xColl.reps⟩
+      (.pod web) = .ok xColl := by rfl
+  simp only [List.foldlM_cons, List.foldlM_nil, s1, s2, s3, bind, Except.bind, pure, Except.pure]
+
+/-- the input has label syntax; hence (theorem) the map key is injective on it — the two keys differ -/
+example : SelectorsOK xColl.eng := by decide
+example : KeyInjective xColl.eng := keyInjective_of_ok (by decide)
+example : keyOf "default" ⟨some selAB, none⟩ ≠ keyOf "default" ⟨some selA_B, none⟩ := by
+  rw [keyAB, keyA_B]; decide
+
+/-- two hypothetical pods in `default`: one satisfies `{ab: c}` only, the other `{a exists, b: c}` only -/
+def qAB : Pod := { ns := "default", name := "q1", labels := [("ab", "c")], ports := [] }
+def qA_B : Pod := { ns := "default", name := "q2", labels := [("a", "x"), ("b", "c")], ports := [] }
+
+theorem cov_coll (q : Pod) (hc : NsConsistent q nsDefault.labels) :
+    ∀ p r, PRule xColl.eng web (dirOf true) p r → isCW r = false → ∀ peer ∈ r.peers,
+      Spec.npPeerMatches p peer (.pod q nsDefault.labels) = true →
+        RepCovers xColl p peer q nsDefault.labels := by
+  intro p r hP hcw peer hpeer hm
+  obtain ⟨hp, _, hr⟩ := hP
+  have : p = npColl := by simpa [xColl] using hp
+  subst this
+  have hr' : r = ⟨[.sel (some selAB) none], [⟨none, .num 80 none⟩]⟩ ∨
+      r = ⟨[.sel (some selA_B) none], [⟨none, .num 81 none⟩]⟩ := by
+    simpa [Spec.npRules, npColl] using hr
+  rcases hr' with rfl | rfl
+  · have : peer = .sel (some selAB) none := by simpa using hpeer
+    subst this
+    exact rep_covers_of_generated xColl npColl (some selAB) none q nsDefault.labels hc hm
+      ("kubernetes.io/metadata.name=default|ab=c", repAB) (by simp [xColl]) rfl rfl
+  · have : peer = .sel (some selA_B) none := by simpa using hpeer
+    subst this
+    exact rep_covers_of_generated xColl npColl (some selA_B) none q nsDefault.labels hc hm
+      ("kubernetes.io/metadata.name=default|a;b=c", repA_B) (by simp [xColl]) rfl rfl
+
+/-- both entries are reported: TCP 80 in an entry `qAB` satisfies, TCP 81 in an entry `qA_B` satisfies
+(`qA_B` does not satisfy `{ab: c}`, so this is the entry that used to be lost) -/
+example : ∃ res entries, xgressExposure xColl wWeb true = .ok res ∧ res = some (true, entries) ∧
+    (∃ en ∈ entries, (en.entireCluster = true ∨ Sat en.podSel en.nsSel qAB nsDefault.labels) ∧
+      denFor true en.conn qAB .TCP 80) ∧
+    (∃ en ∈ entries, (en.entireCluster = true ∨ Sat en.podSel en.nsSel qA_B nsDefault.labels) ∧
+      denFor true en.conn qA_B .TCP 81) := by
+  obtain ⟨res, hres⟩ := xgressExposure_ok xColl (by decide) (by decide) (by decide) "default/web[Pod]"
+    web (by decide) (by decide) nsDefault (by decide) true
+  have hc1 : NsConsistent qAB nsDefault.labels := by unfold NsConsistent; decide
+  have hc2 : NsConsistent qA_B nsDefault.labels := by unfold NsConsistent; decide
+  obtain ⟨entries, rfl, h1⟩ := exposure_complete xColl rfl rfl (by decide) (by decide) (by decide)
+    "default/web[Pod]" web (by decide) (by decide) nsDefault (by decide) true (by decide) res hres qAB
+    nsDefault.labels .TCP 80 (by decide) (cov_coll qAB hc1)
+    (C06.allowedDir_of_npAllows xColl.eng.toView rfl rfl web _ _ _ _ _ _ (by decide))
+  obtain ⟨entries', he, h2⟩ := exposure_complete xColl rfl rfl (by decide) (by decide) (by decide)
+    "default/web[Pod]" web (by decide) (by decide) nsDefault (by decide) true (by decide) _ hres qA_B
+    nsDefault.labels .TCP 81 (by decide) (cov_coll qA_B hc2)
+    (C06.allowedDir_of_npAllows xColl.eng.toView rfl rfl web _ _ _ _ _ _ (by decide))
+  have : entries' = entries := by
+    have := Option.some.inj he
+    exact (Prod.mk.inj this).2.symm
+  subst this
+  exact ⟨_, entries', hres, rfl, h1, h2⟩
+
+/-- the build-level theorem applies to this input as well -/
+example : Exposure.build collObjs = .ok xColl ∧ SelectorsOK xColl.eng ∧ NpValid xColl.eng ∧
+    NamesNonEmpty xColl.eng := ⟨build_coll, by decide, by decide, by decide⟩
 
 end Examples
 
